@@ -546,7 +546,7 @@ def run(ck):
                 r69.instance(f'{key}:{fname}:{x}', ok=not why, wclass='unbounded-accumulator', what=f'{fname}: ' + '; '.join(sorted(set(why))[:2]) + ': signed overflow (undefined behaviour) on a long enough digit run')
     if nacc == 0: raise AnalysisBroken('R6.9 found no accumulator at all (is_ipv4 multiplies byte_val by 10): the rule may be dead')
     # ---- R6.10 subscripts of file-scope tables
-    r610 = ck.rule('R6.10', 'every subscript of a file-scope table is in range: a constant below the size, the induction variable of an enclosing `for (i = 0; i < K; i++)` with K <= size and no other write to i, or errors[eav->errcode] (errcode only ever holds enumerators below EEAV_MAX: C15 T15.1 / P15.1); any other index expression stops the check', 5)
+    r610 = ck.rule('R6.10', 'every subscript of a file-scope table is in range: a constant below the size, the induction variable of an enclosing `for (i = 0; i < K; i++)` with K <= size and no other write to i, or errors[eav->errcode] (errcode only ever holds enumerators below EEAV_MAX: C15 T15.1 / P15.1); any other index expression stops the check; a table handed to a helper with an element count is walked within its size', 3)
     sizes = {}
     for key, tu in tus.items():
         for name, d in tu.globals.items():
@@ -614,6 +614,40 @@ def run(ck):
                 for c in n.get('inner', []) or []:
                     if isinstance(c, dict): visit(c, stack + [n])
             visit(f, [])
+    # R6.10 (continued): a file-scope table handed to a helper of the same unit together with its element count
+    #   static int lookup (const T *list, size_t count, ...) { for (i = 0; i < count; i++) ... list[i] ... }
+    #   lookup (example, ARRAY_SIZE(example), ...)            the count must not exceed the table that is passed
+    for key, tu in sorted(tus.items()):
+        helpers = {}
+        for hname, hf in tu.own_functions().items():
+            params = [c['name'] for c in hf.get('inner', []) if c.get('kind') == 'ParmVarDecl']
+            eng = cfgpaths.Engine(tu, hname)
+            pairs = set()
+            for l in [n for n in astutil.walk(hf) if n.get('kind') == 'ForStmt']:
+                cond = l['inner'][2] if len(l['inner']) > 2 else None
+                if not cond or not cond.get('kind'): continue
+                m = re.fullmatch(r'\((\w+) (<|<=) (\w+)\)', eng.render(cond, cfgpaths.Path()))
+                if not m or m.group(3) not in params: continue
+                for sub in astutil.find(l, 'ArraySubscriptExpr'):
+                    b = astutil.strip(sub['inner'][0]); ix = astutil.strip(sub['inner'][1])
+                    if b.get('kind') == 'DeclRefExpr' and b['referencedDecl']['name'] in params and ix.get('kind') == 'DeclRefExpr' and ix['referencedDecl']['name'] == m.group(1):
+                        pairs.add((params.index(b['referencedDecl']['name']), params.index(m.group(3)), m.group(2)))
+            if pairs: helpers[hname] = pairs
+        if not helpers: continue
+        for fname, f in tu.own_functions().items():
+            eng = cfgpaths.Engine(tu, fname)
+            for nm, c in astutil.calls_in(f):
+                if nm not in helpers: continue
+                args = c['inner'][1:]
+                for pi, ni, op in helpers[nm]:
+                    if pi >= len(args) or ni >= len(args): continue
+                    a = astutil.strip(args[pi])
+                    if not (a.get('kind') == 'DeclRefExpr' and a['referencedDecl']['name'] in sizes): continue
+                    G = a['referencedDecl']['name']; kt = eng.render(args[ni], cfgpaths.Path())
+                    if not re.fullmatch(r'\d+', kt):
+                        raise AnalysisBroken(f'{key}:{fname}: {nm}({G}, {kt}, ...) at {where(c)}: the element count handed over with the table is not a constant the table-subscript rule (R6.10) can compare with its size')
+                    K = int(kt) + (1 if op == '<=' else 0)
+                    r610.instance(f'{key}:{fname}:{nm}({G})@{astutil.line_of(c)}', ok=K <= sizes[G], wclass='table-count', what=f'{fname}: {nm}() walks {K} element(s) of {G}[], which has {sizes[G]} ({where(c)})')
     # ---- R6.5 = C14 R14.2 (stores) and R14.1 (no globals), run here as part of the bundle
     from rules import c14
     c14.run(ck)
